@@ -402,6 +402,57 @@ fn check_int_extremes(w: &[u8], ctx: &mut Ctx) {
     check_ty::<i64>(fam, "i64", w, &x, &alpha, ctx);
     set_abs_tol(0.0);
 }
+fn huge_alpha() -> Vec<X> {
+    vec![None, Some(1.0e308), Some(1.25e308), Some(1.5e308), Some(f64::MAX)]
+}
+/// same-sign values at the top of the f64 range (seed round 12): the sum of two neighbours leaves the range although
+/// every order statistic and every interpolated value between two of them is finite. The median and the linear
+/// quantile lie between their two neighbouring order statistics, at lo + (hi - lo) * fraction.
+fn check_huge(w: &[u8], ctx: &mut Ctx) {
+    let fam = "order-huge";
+    ctx.states += 1;
+    ctx.transitions += 1;
+    ctx.fam(fam).states += 1;
+    ctx.nontrivial(fam, hash_bytes(w));
+    for sign in [1.0f64, -1.0] {
+        let x: Vec<X> = decode(w, &huge_alpha()).into_iter().map(|v| v.map(|a| a * sign)).collect();
+        let mut sorted: Vec<f64> = x.iter().flatten().copied().collect();
+        sorted.sort_by(|a, b| a.partial_cmp(b).unwrap());
+        let n = sorted.len();
+        let want = |q: f64| -> Option<(f64, f64, f64)> {
+            if n == 0 {
+                return None;
+            }
+            let pos = q * (n - 1) as f64;
+            let (i, j) = (pos.floor() as usize, pos.ceil() as usize);
+            Some((sorted[i], sorted[j], sorted[i] + (sorted[j] - sorted[i]) * (pos - i as f64)))
+        };
+        let one = |ctx: &mut Ctx, entry: &str, tname: &str, q: f64, got: Outcome<Cell>| {
+            ctx.eval(fam, match &got { Outcome::Ok(c) => c.hash64(), Outcome::Panic(p) => hash_bytes(p.as_bytes()) });
+            let ok = match (&got, want(q)) {
+                (Outcome::Ok(c), None) => c.is_null(),
+                (Outcome::Ok(c), Some((lo, hi, mid))) => c.num().map_or(false, |g| g.is_finite() && g >= lo && g <= hi && (g - mid).abs() <= 1e-12 * mid.abs()),
+                _ => false,
+            };
+            if !ok {
+                ctx.violation(Violation {
+                    entry: entry.to_string(),
+                    finding: None,
+                    size: x.len() * 100,
+                    case: json!({"family": fam, "word": w, "series": json_word(&x), "elem": tname, "sign": sign, "params": {"q": q}}),
+                    expected: format!("{:?} (lo, hi, interpolated)", want(q)),
+                    got: format!("{got:?}"),
+                });
+            }
+        };
+        one(ctx, "vmedian", "f64", 0.5, run_median::<Vec<f64>, f64>(&enc_vec(&x)));
+        one(ctx, "vmedian", "Option<f64>", 0.5, run_median::<Vec<Option<f64>>, Option<f64>>(&enc_vec(&x)));
+        for q in [0.0, 0.25, 0.5, 0.75, 1.0] {
+            one(ctx, "vquantile(Linear)", "f64", q, run_quantile::<Vec<f64>, f64>(&enc_vec(&x), q, QMethod::Linear));
+            one(ctx, "vquantile(Linear)", "Option<f64>", q, run_quantile::<Vec<Option<f64>>, Option<f64>>(&enc_vec(&x), q, QMethod::Linear));
+        }
+    }
+}
 fn ord_alpha() -> Vec<X> {
     vec![None, Some(0.0), Some(1.0), Some(3.0)]
 }
@@ -499,6 +550,8 @@ fn main() {
             check_percentile_wide(&mut ctx);
         } else if stored["case"]["family"] == "order-int-extremes" {
             check_int_extremes(&syms_from_json(&stored["case"]["word"]), &mut ctx);
+        } else if stored["case"]["family"] == "order-huge" {
+            check_huge(&syms_from_json(&stored["case"]["word"]), &mut ctx);
         } else if stored["case"]["family"] == "order-nan-kinds" {
             let w = syms_from_json(&stored["case"]["word"]);
             check_nan_kinds(&w, &nan_alpha(), &mut ctx);
@@ -530,6 +583,8 @@ fn main() {
     total.merge(par_items(&nan_words, run.threads, |w, ctx| check_nan_kinds(w, &nan_alpha(), ctx)));
     let ext_words = all_words_upto(ext_alpha().len(), run.pick(4, 5));
     total.merge(par_items(&ext_words, run.threads, |w, ctx| check_int_extremes(w, ctx)));
+    let huge_words = all_words_upto(huge_alpha().len(), run.pick(4, 6));
+    total.merge(par_items(&huge_words, run.threads, |w, ctx| check_huge(w, ctx)));
     {
         let mut c = Ctx::new();
         check_percentile_wide(&mut c);
@@ -538,7 +593,7 @@ fn main() {
     let long = long_series(!run.quick());
     total.merge(par_items(&long, run.threads, |(label, x), ctx| check_long(label, x, &fam.alpha, ctx)));
     let meta = Meta {
-        rule: "history tree of every word over {null,0,1,2,3}; at each word: vquantile on a q-grid (incl. j/(n-1) and j/(n-1)+-1e-12) x 4 interpolation methods, vmedian, vpercentile_of (every score of the alphabet, 0.5, 2.5, null x 3 methods), vrank (pct x rev), vpartition / varg_partition (k in 0..=len+1 x sort x rev), element types f64 / Option<f64> / i32 / Option<i32>; oracle = sort the non-null values and index. Plus the same operations on long structured series (17..=64 elements: ramps, saws, plateaus, zigzags, modular permutations, with null blocks and periodic null patterns). Non-trivial = word with a non-null element. Also (DESIGN 5.15, 5.16): ranks and partitions of ordered non-numeric element types (order-ordered-types: DateTime ns / ms, Time, TimeDelta, String, Option<i64>, Option<bool>); NaN kinds (order-nan-kinds); unsigned element types u64 / Option<u64> / usize; i32 neighbours further apart than the type's MAX (order-int-extremes, tolerance scaled to the gap). Round 9 (DESIGN 5.18): TimeDelta alphabets with 300 ns steps and with 40000 d steps (beyond the i64 nanosecond count) among the ordered types. Round 11 (DESIGN 5.20): order-wide-percentile - vpercentile_of on i64 / Option<i64> / u64 series around +-2^60, 2^53+1, i64::MAX-8, 2^63+..: the proportions are those of the small offsets.".into(),
+        rule: "history tree of every word over {null,0,1,2,3}; at each word: vquantile on a q-grid (incl. j/(n-1) and j/(n-1)+-1e-12) x 4 interpolation methods, vmedian, vpercentile_of (every score of the alphabet, 0.5, 2.5, null x 3 methods), vrank (pct x rev), vpartition / varg_partition (k in 0..=len+1 x sort x rev), element types f64 / Option<f64> / i32 / Option<i32>; oracle = sort the non-null values and index. Plus the same operations on long structured series (17..=64 elements: ramps, saws, plateaus, zigzags, modular permutations, with null blocks and periodic null patterns). Non-trivial = word with a non-null element. Also (DESIGN 5.15, 5.16): ranks and partitions of ordered non-numeric element types (order-ordered-types: DateTime ns / ms, Time, TimeDelta, String, Option<i64>, Option<bool>); NaN kinds (order-nan-kinds); unsigned element types u64 / Option<u64> / usize; i32 neighbours further apart than the type's MAX (order-int-extremes, tolerance scaled to the gap). Round 9 (DESIGN 5.18): TimeDelta alphabets with 300 ns steps and with 40000 d steps (beyond the i64 nanosecond count) among the ordered types. Round 11 (DESIGN 5.20): order-wide-percentile - vpercentile_of on i64 / Option<i64> / u64 series around +-2^60, 2^53+1, i64::MAX-8, 2^63+..: the proportions are those of the small offsets. Round 12 (DESIGN 5.21): order-huge - vmedian and the linear vquantile on same-sign f64 / Option<f64> words over {null, 1e308, 1.25e308, 1.5e308, f64::MAX} and their negatives: finite, between the two neighbouring order statistics, at lo + (hi - lo) * fraction.".into(),
         bounds: json!({"alphabet": json_word(&fam.alpha), "L": fam.max_len, "k": "0..=len+1", "q_grid": "0,.1,.2,.25,.3,1/3,.5,2/3,.7,.75,.9,1, j/(n-1), j/(n-1)+-1e-12"}),
         assumptions: vec!["fractional index within 1e-9 of an integer: either neighbouring reading accepted (DESIGN 5.5)".into(),
             "unsorted partitions compared as multisets; arg-partition index sets with ties accepted when the values form the right multiset (DESIGN 5.6)".into()],
